@@ -1,14 +1,16 @@
 #!/venv/bin/python
-"""Run the pinned test suite and compare with /root/.vp/BASELINE.json."""
+"""Run the pinned test suite (in /repo, or in the worktree given as argv[1])
+and compare with /root/.vp/BASELINE.json."""
 import json, os, subprocess, sys, tempfile
 import xml.etree.ElementTree as ET
+wt = os.path.abspath(sys.argv[1]) if len(sys.argv) > 1 else "/repo"
 base = json.load(open("/root/.vp/BASELINE.json"))
 fd, xml = tempfile.mkstemp(suffix=".xml", dir="/dev/shm" if os.path.isdir("/dev/shm") else None)
 os.close(fd)
 cmd = ["/venv/bin/python", "-m", "pytest", "-q", "-p", "no:cacheprovider",
        "--timeout=900", "--continue-on-collection-errors", "-n", "8",
        "--junitxml=" + xml]
-subprocess.run(cmd, cwd="/repo", stdout=subprocess.DEVNULL, stderr=subprocess.DEVNULL)
+subprocess.run(cmd, cwd=wt, env=dict(os.environ, PYTHONPATH=wt), stdout=subprocess.DEVNULL, stderr=subprocess.DEVNULL)
 passed = set()
 for tc in ET.parse(xml).getroot().iter("testcase"):
     if not any(c.tag in ("failure", "error", "skipped") for c in tc):
